@@ -15,6 +15,12 @@
 // redis client's breaker holds no wall-clock state; it jumps 11 s after every
 // injected outage.
 //
+// With the context flavour of the API every call runs under a context of its
+// own (ops_test.go: background, cancelled / deadline-cancelled right after the
+// call returned, value-carrying, cancelled before the call); bursts of
+// concurrent readers are spread over several caches / cached conns on the same
+// store (seq_test.go mkStore).
+//
 // The cleaner (failed invalidations are retried by a process-global timing
 // wheel on a real 1 s ticker) is the only asynchronous actor. Its DEL commands
 // are observed through the pre-hook; keys with a pending retry are "tainted"
@@ -337,14 +343,18 @@ func (w *world) scan(nodes []*node) (map[string]entry, []string) {
 	var dup []string
 	for _, n := range nodes {
 		for _, k := range n.mr.Keys() {
+			// TTL before contents: the cleaner's retry (the only concurrent actor, and it
+			// only deletes) may remove the key in between; a key that still had contents
+			// afterwards existed when its TTL was read
+			ttl := n.mr.TTL(k)
 			v, err := n.mr.Get(k)
 			if err != nil {
-				continue // expired between Keys and Get cannot happen (virtual TTL); other types are not ours
+				continue // removed by the cleaner meanwhile (expiry cannot happen: virtual TTL); other types are not ours
 			}
 			if _, twice := out[k]; twice {
 				dup = append(dup, k)
 			}
-			out[k] = entry{Val: v, TTL: n.mr.TTL(k), Node: n.name}
+			out[k] = entry{Val: v, TTL: ttl, Node: n.name}
 		}
 	}
 	return out, dup
